@@ -1044,7 +1044,7 @@ class StubsStringGenerator:
             return
 
         module_id = self._get_module_id().replace("/", ".")
-        if module_id not in import_qname:
+        if not import_qname.startswith(f"{module_id}."):
             # We need the full path for an import from the same package, but we sometimes don't get enough information,
             # therefore we have to search for the class and get its id
             import_qname_path = import_qname.replace(".", "/")
